@@ -237,18 +237,28 @@ func TestC18(t *testing.T) {
 			vp := &pwr.ValidatingPool{Pool: inner, Container: si.Container, Signature: si}
 			a, b := int64(0), int64(1)
 			da, db := tree[si.Container.Files[a].Path].Data, tree[si.Container.Files[b].Path].Data
+			var lateClose io.Closer
 			if rapid.Bool().Draw(rt, "closetwicefirst") {
 				// an earlier writer that is closed twice (deferred Close plus explicit Close)
 				w0, e0 := vp.GetWriter(a)
 				if e0 == nil {
 					w0.Write(tree[si.Container.Files[a].Path].Data)
 					w0.Close()
-					w0.Close()
+					if rapid.Bool().Draw(rt, "secondcloselate") {
+						// ... the second time only after the next writer has been opened
+						lateClose = w0
+					} else {
+						w0.Close()
+					}
 					inner.Got[a] = nil
 				}
 			}
 			skipA := 0
 			wa, ea := vp.GetWriter(a)
+			if lateClose != nil {
+				lateClose.Close()
+				Ev.Probe("earlier_writer_closed_again_while_the_next_one_is_open")
+			}
 			if nfiles >= 3 && ea == nil && rapid.Bool().Draw(rt, "thirdwriter") {
 				// while the first writer is open (holding part of a block), another one comes and goes
 				// before the second one is opened
